@@ -103,6 +103,36 @@ def run_harness(cfile, h, outdir, reach=False, timeout=None, extra_defs=(), mem_
     r = run(cc, 300, mem_gb)
     if r['rc'] != 0:
         res['reason'] = 'goto-cc failed: ' + (r['err'] or r['out'])[-1500:]; res['wall_s'] = time.time() - t0; return res
+    if gi and h.get('cexsearch_fns'):
+        # counter-example search (./check: some functions of the woven file have loops WITHOUT loop contracts -- the spec's loop contracts
+        # do not apply to the function's current body and were left out, or the function was printed automatically (member function of a
+        # nested record) and the spec has nothing for it).  If the harness reaches such a loop (bodies of the functions replaced by their
+        # contracts not counted), these loops are unwound `cexsearch` times BEFORE the contract instrumentation (DFCC is only sound for
+        # loop-free or contracted code), without unwinding assertions: longer runs are cut off.  A failure found this way has a concrete
+        # run of the model; the absence of a failure proves nothing (the caller reports UNDECIDED then).
+        fns = [x for x in h['cexsearch_fns'].split(',') if x]; K = h.get('cexsearch', '4')
+        a = cc[-1]; base = a[:-5] if a.endswith('.a.gb') else a
+        t1 = base + '.r1.gb'; t2 = base + '.r2.gb'; a2 = base + '.u.gb'
+        repl = [x for x in h.get('replace', '').split(',') if x]
+        src = a
+        if repl:
+            rb = ['goto-instrument'] + [y for x in repl for y in ('--remove-function-body', x)] + [a, t1]
+            if run(rb, 300, mem_gb)['rc'] == 0: src = t1
+        ids = None
+        if run(['goto-instrument', '--drop-unused-functions', src, t2], 300, mem_gb)['rc'] == 0:
+            r = run(['goto-instrument', '--show-loops', t2], 300, mem_gb)
+            if r['rc'] == 0: ids = re.findall(r'^Loop (\S+):', r['out'] + r['err'], re.M)
+        if ids is None:
+            res['reason'] = 'goto-instrument (loop listing) failed'; res['wall_s'] = time.time() - t0; return res
+        ids = [x for x in ids if x.rsplit('.', 1)[0] in fns]
+        if ids:
+            pre = ['goto-instrument', '--unwindset', ','.join('%s:%s' % (x, K) for x in ids), '--no-unwinding-assertions', a, a2]
+            r = run(pre, 600, mem_gb)
+            if r['rc'] != 0:
+                res['reason'] = 'goto-instrument (unwinding) failed: ' + (r['err'] or r['out'])[-1500:]; res['wall_s'] = time.time() - t0; return res
+            gi = [a2 if x == a else x for x in gi]
+            res['cmds'] = [res['cmds'][0], ' '.join(pre), ' '.join(gi)] + res['cmds'][2:]
+            res['cexsearch_applied'] = ids
     if gi:
         r = run(gi, 600, mem_gb)
         if r['rc'] != 0:
